@@ -604,6 +604,39 @@ func ctorArgsOK(fn *ssa.Function, alloc *ssa.Alloc, hasR, hasW bool) (bool, stri
 			}
 		}
 	}
+	// the literal and the local struct values copied into its (embedded) struct fields: `base := connBase{Conn: conn}`
+	roots := map[ssa.Value]bool{alloc: true}
+	for round := 0; round < 3; round++ {
+		core.AllInstrs(fn, func(in ssa.Instruction) {
+			st, ok := in.(*ssa.Store)
+			if !ok {
+				return
+			}
+			_, base := core.FieldOf(st.Addr)
+			if base == nil {
+				return
+			}
+			root := core.Unwrap(base)
+			for d := 0; d < 4; d++ {
+				fa, ok := root.(*ssa.FieldAddr)
+				if !ok {
+					break
+				}
+				root = core.Unwrap(fa.X)
+			}
+			if !roots[root] {
+				return
+			}
+			if _, isStruct := st.Val.Type().Underlying().(*types.Struct); !isStruct {
+				return
+			}
+			if ld, ok := core.Unwrap(st.Val).(*ssa.UnOp); ok && ld.Op == token.MUL {
+				if b, ok := ld.X.(*ssa.Alloc); ok {
+					roots[b] = true
+				}
+			}
+		})
+	}
 	core.AllInstrs(fn, func(in ssa.Instruction) {
 		st, ok := in.(*ssa.Store)
 		if !ok {
@@ -622,7 +655,7 @@ func ctorArgsOK(fn *ssa.Function, alloc *ssa.Alloc, hasR, hasW bool) (bool, stri
 			}
 			root = core.Unwrap(fa.X)
 		}
-		if root != ssa.Value(alloc) {
+		if !roots[root] {
 			return
 		}
 		if core.NamedIs(f.Type(), "net", "Conn") {
